@@ -266,11 +266,390 @@ def phase_life(ctx):
     return traces
 
 
+# ----------------------------------------------------------------------------- phase 3: TLC judges recorded executions
+OPNAME = {"Set": "set", "AsRaw": "raw", "ReadId": "id", "ReadId256": "id256", "Copy": "copy", "Check": "check"}
+
+
+def _val(v):
+    if v is None:
+        return []
+    if v == "other":
+        return [-1]
+    return list(v)
+
+
+def life_trace(tid, t):
+    ev = []
+    for e in t["ev"]:
+        op, a = e["op"], e["args"]
+        rec = {"op": OPNAME.get(op, ""), "f": 0, "x": 0, "v": [], "ret": _val(e["ret"]), "fields": _val(e["st"]["fields"]),
+               "dirty": e["st"]["dirty"], "text": _val(e["st"]["text"]), "shak": e["st"]["sha"][0], "shav": _val(e["st"]["sha"][1])}
+        if op == "Set":
+            rec["f"], rec["x"] = a
+        elif op == "SetRaw":
+            rec["op"], rec["v"] = ("setrawsha" if a[1] else "setraw"), list(a[0])
+        elif op == "SetChunked":
+            rec["op"], rec["v"] = "chunked", list(a[0])
+        elif op == "Reload":
+            rec["op"] = "reloadsha" if a[0] else "reload"
+        ev.append(rec)
+    return {"tid": tid, "origin": t["origin"], "v0": list(t["v0"]), "ev": ev}
+
+
+def tlc_verdicts(ctx, spec, cfg, path, label, n):
+    res = tlc.run(spec, cfg, workers=1, timeout=1800, env={"TRACE_FILE": path})
+    ctx.add_tlc(label, res, require_ok=False)
+    out = {}
+    for line in res.output.splitlines():
+        if line.startswith('<<"VERDICT"'):
+            v = tlc.tlaval.parse(line.strip())
+            cur = out.get(v[1])
+            if cur is None or (cur[2] == "ok" and v[2] != "ok"):
+                out[v[1]] = v
+    if not res.completed or len(out) != n:
+        raise MachineryError(f"{label}: trace validation incomplete ({len(out)}/{n} verdicts)\n{res.output[-3000:]}")
+    return out
+
+
+def phase_life_traces(ctx, traces):
+    d = ctx.tmpdir("lt")
+    groups = {"generic": [], "blob": []}
+    for t in traces:
+        groups["blob" if t["kind"] == "blob" else "generic"].append(t)
+    keeps = "Keeps" in ctx.cov["life"].get("blob_model_matching_code", "")
+    cfgs = {"generic": "ObjFileTrace_generic.cfg", "blob": "ObjFileTrace_blob_keeps_sha.cfg" if keeps else "ObjFileTrace_blob.cfg"}
+    tid = 0
+    nval = 0
+    for g, ts in groups.items():
+        if not ts:
+            continue
+        path = os.path.join(d, g + ".ndjson")
+        index = {}
+        with open(path, "w") as f:
+            for t in ts:
+                tid += 1
+                index[tid] = t
+                f.write(json.dumps(life_trace(tid, t), separators=(",", ":")) + "\n")
+        verdicts = tlc_verdicts(ctx, "ObjFileTrace.tla", cfgs[g], path, f"ObjFileTrace[{cfgs[g]}] {len(ts)} recorded histories", len(ts))
+        for k, t in index.items():
+            _, _, verdict, fail_at, drift_at = verdicts[k]
+            nval += 1
+            ctx.nontrivial(("lt", t["conc"], t["origin"], tuple(t["v0"]), json.dumps(t["ops"])))
+            oracle_bad = any(not c.startswith("exception") for (_, c) in t["fails"])
+            if (verdict != "ok") != oracle_bad:
+                # two judges: TLC (ghost fields follow ObjFile, e.g. check() re-parses the text) and the
+                # harness oracle (what the setters were called with).  Either one flags the history.
+                ctx.cov["life"]["judges_disagree"] = ctx.cov["life"].get("judges_disagree", 0) + 1
+            if verdict != "ok" or t["fails"]:
+                clause = t["fails"][0][1] if t["fails"] else verdict
+                cls = {"commit": "Commit", "tag": "Tag", "tree": "Tree", "blob": "Blob"}[t["kind"]]
+                sig = f"dulwich/objects.py:{cls}|{clause}|{t['algo']}:{t['scenario']}"
+                ctx.violation(sig, f"recorded history rejected by ObjFileTrace ({verdict} at event {fail_at}): {t['scenario']} on {t['conc']}",
+                              {"phase": "life-trace", "trace": t})
+            elif drift_at:
+                ctx.drift_event(f"recorded history {t['conc']} {t['origin']}: event {drift_at} is not an ObjFile step")
+    ctx.validated(nval)
+    ctx.cov["life"]["histories_validated"] = nval
+    ctx.log(f"ObjFileTrace: {nval} recorded histories validated")
+
+
+def phase_fuzz(ctx):
+    d = ctx.tmpdir("fz")
+    n_py, n_rs = ctx.pick(6, 12), ctx.pick(1, 3)
+    per = ctx.pick(700, 9000)
+    jobs = [{"task": "fuzz", "mode": "py", "shard": i, "count": per, "traces": os.path.join(d, f"py{i}.ndjson")} for i in range(n_py)]
+    jobs += [{"task": "fuzz", "mode": "rs", "shard": 100 + i, "count": per, "traces": os.path.join(d, f"rs{i}.ndjson")} for i in range(n_rs)]
+    results = spawn(ctx, jobs, "fuzz")
+    # children are done; TLC judges every (fields, bytes) pair -- several TLC processes side by side
+    import concurrent.futures as cf
+    def judge(job_res):
+        job, r = job_res
+        return tlc_verdicts_quiet(job["traces"], r["n"]["traces"])
+    with cf.ThreadPoolExecutor(max_workers=8) as ex:
+        outs = list(ex.map(judge, zip(jobs, results)))
+    total = 0
+    for job, r, (res, verdicts) in zip(jobs, results, outs):
+        ctx.add_tlc(f"ObjGrammarTrace[fuzz {job['mode']} shard {job['shard']}] {r['n']['traces']} (fields, bytes) pairs", res, require_ok=False)
+        for tid, v in verdicts.items():
+            total += 1
+            if v[2] != "ok":
+                m = r["meta"].get(str(tid), {})
+                if v[2] == "illformed":
+                    raise MachineryError(f"fuzz generator produced a case outside the canonical domain: {m}")
+                site = "crates/objects/src/lib.rs:sorted_tree_items" if job["mode"] == "rs" else f"dulwich/objects.py:{m.get('kind')}._serialize"
+                sig = f"{site}|bytes-differ-from-spec:{m.get('what')}|{m.get('kind')} seed={ctx.seed} shard={m.get('shard')} n={m.get('n')}"
+                ctx.violation(sig, f"TLC (ObjGrammarTrace): as_raw_string() of a random {m.get('kind')} ({m.get('what')}) differs from Ser(fields) at byte {v[3]}",
+                              {"phase": "fuzz", "meta": m, "job": {k: job[k] for k in ("mode", "shard", "count")}})
+        for f in r["fail"]:
+            sig = f"{f['site']}|{f['clause']}|{f['kind']} seed={ctx.seed} shard={f['shard']} n={f['n']}"
+            ctx.violation(sig, f"random {f['kind']} ({f['algo']}, {f['mode']}): {f['clause']} {f['note'][:200]}", {"phase": "fuzz", "failure": f})
+        ctx.count(r["n"]["objects"])
+    ctx.validated(total)
+    ctx.cov["fuzz"] = {"pairs_judged_by_tlc": total}
+    for i in range(total):
+        pass
+    ctx._nontrivial.update(("fz", i) for i in range(total))     # every random object is a full object; distinct by construction (seeded stream)
+    ctx.log(f"ObjGrammarTrace: {total} (fields, bytes) pairs of random objects judged")
+
+
+def tlc_verdicts_quiet(path, n):
+    res = tlc.run("ObjGrammarTrace.tla", "ObjGrammarTrace.cfg", workers=1, timeout=1800, env={"TRACE_FILE": path},
+                  java_opts=["-Xmx2g"])
+    out = {}
+    for line in res.output.splitlines():
+        if line.startswith('<<"VERDICT"'):
+            v = tlc.tlaval.parse(line.strip())
+            out[v[1]] = v
+    if not res.completed or len(out) != n:
+        raise MachineryError(f"ObjGrammarTrace: incomplete ({len(out)}/{n} verdicts)\n{res.output[-3000:]}")
+    return res, out
+
+
+# ----------------------------------------------------------------------------- phase 4: C git as third party
+CRUD = b".,:;<>\"\\'"
+
+
+def _strip_crud(b):
+    """What git's ident code removes from both ends of a name / e-mail."""
+    i, j = 0, len(b)
+    while i < j and (b[i] <= 32 or b[i] in CRUD):
+        i += 1
+    while j > i and (b[j - 1] <= 32 or b[j - 1] in CRUD):
+        j -= 1
+    return b[i:j]
+
+
+def git_made(ctx, repo, n_commits, n_tags, n_trees, stub):
+    """Let git itself make objects from known field values: commit-tree, tag -a, mktree.
+    Returns records {kind, algo, fields F (concrete), bytes, id, src}."""
+    from .. import c01_fuzz as Z
+    from .. import c01_git as G
+    algo = repo.algo
+    rng = __import__("random").Random(f"{ctx.seed}/gitmade/{algo}")
+    g = Z.Gen(rng, algo)
+    recs, skipped = [], 0
+
+    def ident():
+        while True:
+            name = _strip_crud(g.bytes_(1, 12, exclude=b"\n\0<>"))
+            email = _strip_crud(g.bytes_(1, 12, exclude=b"\n\0<> "))
+            if name and email:
+                return name, email
+
+    def date():
+        t = rng.choice([0, 1, 1234567890, 2 ** 31, 2 ** 32 + 5, 10 ** 9, 2 ** 40, 2 ** 62]) if rng.random() < 0.7 else rng.randrange(0, 2 ** 62)
+        hh, mm = rng.randrange(0, 100), rng.randrange(0, 60)
+        if rng.random() < 0.3:
+            hh, mm = 0, 0
+        sign = rng.choice("+-") if (hh or mm) else "+"
+        off = (hh * 3600 + mm * 60) * (-1 if sign == "-" else 1)
+        return t, off, f"@{t} {sign}{hh:02d}{mm:02d}"
+
+    def text(allow_empty=True):
+        m = g.text(maxlines=4, allow_none=allow_empty, marker_free=True)
+        return None if m is None else m.replace(b"\0", b"0")
+
+    for i in range(n_commits):
+        an, ae = ident()
+        cn, ce = ident()
+        at, aoff, ad = date()
+        ct, coff, cd = date()
+        parents = rng.sample([L.HEX[algo][k] for k in (3, 4, 5)], rng.choice([0, 1, 1, 2, 3]))
+        tree = L.HEX[algo][rng.choice([1, 2])]
+        msg = text()
+        enc = rng.choice([None, None, b"ISO-8859-1", b"latin1x"])
+        if enc is None:
+            # without an encoding header git commit-tree rewrites bytes that are not valid UTF-8
+            # (verify_utf8 transcodes them from Latin-1); such inputs get an explicit encoding
+            try:
+                (an + ae + cn + ce + (msg or b"")).decode("utf-8")
+            except UnicodeDecodeError:
+                enc = b"ISO-8859-1"
+        signed = rng.random() < 0.3
+        env = {"GIT_AUTHOR_NAME": an, "GIT_AUTHOR_EMAIL": ae, "GIT_AUTHOR_DATE": ad,
+               "GIT_COMMITTER_NAME": cn, "GIT_COMMITTER_EMAIL": ce, "GIT_COMMITTER_DATE": cd}
+        args = []
+        if enc:
+            args += ["-c", "i18n.commitEncoding=" + enc.decode()]
+        if signed:
+            args += ["-c", "gpg.program=" + stub["prog"]]
+            kind_sig = rng.choice(["PGP", "SSH"])
+            sig = g.sig(kind_sig).replace(b"\r", b"r")
+            with open(stub["sig"], "wb") as f:
+                f.write(sig + b"\n")
+        args += ["commit-tree"] + (["-S"] if signed else [])
+        for p in parents:
+            args += ["-p", p.decode()]
+        args.append(tree.decode())
+        p = G.git(repo.path, *args, stdin=msg or b"", env=env, check=False)
+        if p.returncode != 0:
+            skipped += 1
+            continue
+        F = {"tree": tree, "parents": parents, "author": an + b" <" + ae + b">", "author_time": at, "author_timezone": aoff,
+             "author_timezone_neg_utc": False, "committer": cn + b" <" + ce + b">", "commit_time": ct, "commit_timezone": coff,
+             "commit_timezone_neg_utc": False, "encoding": enc, "mergetag": [], "extra": [], "gpgsig": None, "message": msg}
+        if signed:
+            if algo == "sha1":
+                F["gpgsig"] = sig
+            else:
+                F["extra"] = [(b"gpgsig-sha256", sig)]
+        recs.append({"kind": "commit", "algo": algo, "F": F, "id": p.stdout.strip().decode(), "src": "git commit-tree"})
+    for i in range(n_tags):
+        tn, te = ident()
+        tt, toff, td = date()
+        name = (rng.choice([b"v", b"rel/", b"x-"]) + bytes(rng.choice(b"abc019-_\xc3\xa9\xff") for _ in range(rng.randint(1, 6)))).rstrip(b"-") + b"%d" % i
+        ttype, hx = rng.choice([("commit", L.HEX[algo][3]), ("tree", L.HEX[algo][2]), ("blob", L.HEX[algo][6]), ("tag", L.HEX[algo][7])])
+        msg = text(allow_empty=False)
+        if not msg:
+            msg = b"m"
+        signed = rng.random() < 0.4
+        env = {"GIT_COMMITTER_NAME": tn, "GIT_COMMITTER_EMAIL": te, "GIT_COMMITTER_DATE": td}
+        args = []
+        sig = None
+        if signed:
+            args += ["-c", "gpg.program=" + stub["prog"]]
+            sig = g.sig("PGP").replace(b"\r", b"r") + b"\n"
+            with open(stub["sig"], "wb") as f:
+                f.write(sig)
+        mf = os.path.join(repo.files, "tagmsg")
+        with open(mf, "wb") as f:
+            f.write(msg)
+        args += ["tag", "-s" if signed else "-a", "--cleanup=verbatim", "-F", mf, name, hx.decode()]
+        p = G.git(repo.path, *args, env=env, check=False)
+        if p.returncode != 0:
+            skipped += 1
+            continue
+        tid = G.git(repo.path, "rev-parse", b"refs/tags/" + name).stdout.strip().decode()
+        F = {"object": (ttype, hx), "name": name, "tagger": tn + b" <" + te + b">", "tag_time": tt, "tag_timezone": toff,
+             "tag_timezone_neg_utc": False, "message": msg, "signature": sig}
+        recs.append({"kind": "tag", "algo": algo, "F": F, "id": tid, "src": "git tag"})
+    trees = [g.tree() for _ in range(n_trees)]
+    tids = repo.mktree_batch(trees)
+    for ents, tid in zip(trees, tids):
+        recs.append({"kind": "tree", "algo": algo, "F": {"entries": ents}, "id": tid.decode(), "src": "git mktree"})
+    got = repo.read_objects([r["id"].encode() for r in recs])
+    for r in recs:
+        typ, body = got[r["id"].encode()]
+        if typ != r["kind"]:
+            raise MachineryError(f"git made a {typ} where a {r['kind']} was asked for")
+        r["bytes"] = body
+    return recs, skipped
+
+
+def phase_git(ctx):
+    import shutil
+    from .. import c01_git as G
+    if not shutil.which("git"):
+        ctx.assumptions.append("git not found: every git-dependent clause skipped")
+        return
+    root = ctx.tmpdir("git")
+    stub = {"prog": os.path.join(root, "gpgstub.sh"), "sig": os.path.join(root, "sig.txt")}
+    with open(stub["prog"], "w") as f:
+        f.write(f"#!/bin/sh\ncat >/dev/null\ncat {stub['sig']}\necho '[GNUPG:] SIG_CREATED D 1 8 00 1 X' >&2\n")
+    os.chmod(stub["prog"], 0o755)
+    table = ctx.table
+    keys = sorted(table)
+    if ctx.quick:                      # every tag/blob/commit case, a third of the trees
+        keys = [k for i, k in enumerate(keys) if k[0] != "tree" or i % 3 == 0]
+    cov = ctx.cov.setdefault("git", {})
+    allrecs = []
+    for algo in L.ALGOS:
+        repo = G.Repo(root, algo)
+        ids = repo.write_objects([L.FIXED[algo][i] for i in range(1, 8)])
+        if ids != L.HEX[algo][1:]:
+            raise MachineryError("git names the fixed pool objects differently from hashlib")
+        objs = [(k, L.render(table[(k, key)], algo)) for (k, key) in keys]
+        ids = repo.write_objects(objs)
+        bad = [keys[i] for i in range(len(keys)) if ids[i] != L.H(algo, keys[i][0], objs[i][1])]
+        if bad:
+            raise MachineryError(f"git hash-object and hashlib disagree on {len(bad)} canonical objects, e.g. {bad[0]}")
+        # fsck --strict: rejected set must be exactly the cases the specification predicts
+        flagged = {i for i, msgs in repo.fsck_errors().items()}
+        byid = {ids[i]: keys[i] for i in range(len(keys))}
+        rejected = {byid[i] for i in flagged if i in byid}
+        predicted = {k for k in keys if not L.STRICT.get(k, True)}
+        if rejected != predicted:
+            diff = sorted(rejected ^ predicted)[:5]
+            raise MachineryError(f"git fsck --strict and ObjGrammar!GitStrictOK disagree ({algo}) on {len(rejected ^ predicted)} cases, e.g. {diff}")
+        # mktree: git sorts the entries itself and must arrive at the specification's bytes
+        trees = [k for k in keys if k[0] == "tree"]
+        tids = repo.mktree_batch([list(reversed(L.tree_entries(key, algo))) for (_, key) in trees])
+        bad = [k for k, t in zip(trees, tids) if t != L.H(algo, "tree", L.render(table[k], algo))]
+        if bad:
+            raise MachineryError(f"git mktree and ObjGrammar!SerTree disagree on {len(bad)} trees, e.g. {bad[0]}")
+        # ls-tree shows the same fields in the same order
+        for k in trees[:: max(1, len(trees) // ctx.pick(12, 60))]:
+            ents = L.tree_entries(k[1], algo)
+            out = G.git(repo.path, "ls-tree", "-z", L.H(algo, "tree", L.render(table[k], algo)).decode()).stdout
+            got = []
+            for rec in out.split(b"\0")[:-1]:
+                meta, name = rec.split(b"\t", 1)
+                mode, typ, hx = meta.split(b" ")
+                got.append((name, int(mode, 8), hx))
+            # git canonicalises the mode of regular files when it *displays* a tree (100664 -> 100644)
+            ents = [(n, 0o100644 if m == 0o100664 else m, h) for (n, m, h) in ents]
+            if got != ents:
+                raise MachineryError(f"git ls-tree and the specification disagree on tree {k}: {got} vs {ents}")
+        # mktag: accepted exactly when strict, with a tagger
+        tags = [k for k in keys if k[0] == "tag"]
+        tags = tags[:: max(1, len(tags) // ctx.pick(40, 400))]
+        nacc = 0
+        for k in tags:
+            body = L.render(table[k], algo)
+            p = G.git(repo.path, "mktag", stdin=body, check=False)
+            case = L.case_of(ctx.pools, "tag", k[1])
+            want = L.STRICT.get(k, True) and bool(case["tagger"])
+            if (p.returncode == 0) != want:
+                raise MachineryError(f"git mktag {'accepts' if p.returncode == 0 else 'rejects'} tag {k} against the specification's prediction: {p.stderr[-300:]}")
+            if p.returncode == 0:
+                nacc += 1
+                if p.stdout.strip() != L.H(algo, "tag", body):
+                    raise MachineryError(f"git mktag names tag {k} differently")
+        cov[algo] = {"objects_named_by_git": len(keys), "fsck_strict_rejected_as_predicted": len(rejected),
+                     "trees_rebuilt_by_mktree": len(trees), "mktag_tried": len(tags), "mktag_accepted": nacc}
+        recs, skipped = git_made(ctx, repo, ctx.pick(60, 1500), ctx.pick(25, 500), ctx.pick(150, 5000), stub)
+        cov[algo]["git_made_objects"] = len(recs)
+        cov[algo]["git_refused_inputs"] = skipped
+        allrecs += recs
+    # (a) specification vs git on the git-made objects: TLC judges (known inputs, git's bytes)
+    d = ctx.tmpdir("gm")
+    path = os.path.join(d, "gitmade.ndjson")
+    with open(path, "w") as f:
+        for i, r in enumerate(allrecs):
+            F = r["F"]
+            case = (L.commit_case(F) if r["kind"] == "commit" else L.tag_case(F) if r["kind"] == "tag" else L.tree_case(F["entries"]))
+            f.write(json.dumps({"tid": i + 1, "kind": r["kind"], "c": case, "obs": list(r["bytes"])}, separators=(",", ":")) + "\n")
+    res, verdicts = tlc_verdicts_quiet(path, len(allrecs))
+    ctx.add_tlc(f"ObjGrammarTrace[git-made] {len(allrecs)} objects written by git commit-tree / tag / mktree", res, require_ok=False)
+    bad = [(allrecs[t - 1]["src"], v[2], v[3], allrecs[t - 1]["bytes"][:300]) for t, v in verdicts.items() if v[2] != "ok"]
+    if bad:
+        raise MachineryError(f"specification and git disagree on {len(bad)} git-made objects, e.g. {bad[0]}")
+    # (b) dulwich on the git-made objects
+    of = os.path.join(d, "objects.ndjson")
+    with open(of, "w") as f:
+        for r in allrecs:
+            f.write(json.dumps({"kind": r["kind"], "algo": r["algo"], "fields": L.jsonable(r["F"]), "bytes": r["bytes"].decode("latin-1"),
+                                "id": r["id"], "src": r["src"]}) + "\n")
+    results = spawn(ctx, [{"task": "fuzz", "mode": m, "objects": of} for m in ("py", "rs")], "gitobjs")
+    for r in results:
+        ctx.count(r["n"]["objects"])
+        for fl in r["fail"]:
+            sig = f"{fl['site']}|{fl['clause']}|{fl['src']} {L.H('sha1', 'blob', fl['bytes'].encode('latin-1')).decode()[:12]}"
+            ctx.violation(sig, f"object made by {fl['src']} ({fl['algo']}, {fl['mode']}): {fl['clause']} {fl['note'][:200]}",
+                          {"phase": "git-made", "failure": fl})
+    ctx.validated(len(allrecs))
+    ctx._nontrivial.update(("gm", r["id"]) for r in allrecs)
+    ctx.log(f"git: {cov}")
+
+
 # ----------------------------------------------------------------------------- entry
 def run(ctx):
     rustext.build()
     phase_grammar(ctx)
     traces = phase_life(ctx)
+    phase_life_traces(ctx, traces)
+    phase_fuzz(ctx)
+    phase_git(ctx)
     ctx.cov["rule"] = ("grammar: one case per TLC state of ObjGrammar (all commits/tags within Hamming distance Radius of two "
                        "base cases over the field pools, all trees up to TreeMax entries over the ordering universe and all "
                        "legal modes, blob chunkings); each is built, serialised, named (SHA-1 and SHA-256), parsed and edited on "
